@@ -755,7 +755,7 @@ class Gen:
             if self.has("loops"):
                 forms += ["while", "for"]
                 if self.has("exprstmt") and self.has("list") and self.in_for == 0:
-                    forms += ["forset"]
+                    forms += ["forset", "forpush"]
             if self.has("ret") and self.cur_rt is not None:
                 forms += ["ret"]
             if self.has("list") and self.in_for == 0:
@@ -934,6 +934,26 @@ class Gen:
                     cond = binop("and", "bool", extra, cond) if r.random() < 0.6 else binop("and", "bool", cond, extra)
             # counter declaration + loop live in their own block
             return block([let(i, cty, ilit(cty, 0)), {"k": "while", "c": cond, "b": block(body)}])
+        if f == "forpush":
+            # the loop pushes to the list it iterates over (bounded by a literal length), directly or through a copy of the
+            # handle: every copy of a list observes the pushes, also the running loop
+            lvars = [(n, t[1]) for (n, t) in self.all_vars() if isinstance(t, list) and t[0] == "list"
+                     and isinstance(t[1], str) and self.emit_ok(t[1]) and t[1] not in FLOAT_TYS]
+            if not lvars:
+                return self.stmt_emit(d)
+            l, ety = r.choice(lvars)
+            x = self.fresh("x")
+            bound = ilit("u64", r.randint(1, 6))
+            pre = []
+            target = l
+            if r.random() < 0.4:
+                target = self.fresh("c")
+                pre.append(let(target, ["list", ety], var(l)))       # another handle to the same list
+            guard = binop("lt", "u64", {"k": "lcall", "m": "len", "r": var(l), "args": []}, bound)
+            body = [if_(guard, block([{"k": "lcall", "m": "push", "r": var(target), "args": [var(x)]}])),
+                    host("emit", ety, self.tag(), [var(x)])]
+            return block(pre + [{"k": "for", "n": x, "e": var(l), "b": block(body)},
+                                host("emit", "u64", self.tag(), [{"k": "lcall", "m": "len", "r": var(l), "args": []}])])
         if f == "forset":
             # a loop over a list VARIABLE whose body gives that variable another list: the loop goes on over the list
             # it started with (the expression after `in` is evaluated once)
